@@ -109,6 +109,7 @@ impl ClientPlan {
                 rich_status: false,
                 dead_from_conn: None,
                 dead_point: 1,
+                abort_extras: 0,
             },
             init: ConfigureOutcome::plain(),
             ops,
@@ -589,6 +590,7 @@ impl ClientRun {
                 FaultKind::StallMid(_) => "fault.stall_mid_frame",
                 FaultKind::IdentityAbort(_) => "fault.identity_abort",
                 FaultKind::StaleAfter(_) => "fault.stale_bytes_after_frame",
+                FaultKind::CloseIdle => "fault.closed_while_idle",
             });
         }
         stats.add("probe.duplicate_reservation", pt.duplicate_reservations);
